@@ -30,3 +30,14 @@ Print Assumptions C17_admit_iff_token.
 Theorem C17_removed_on_destroy : forall s, la_alive s = true -> la_file (fst (la_step s LDestroy)) = None.
 Proof. exact removed_on_destroy. Qed.
 Print Assumptions C17_removed_on_destroy.
+
+(* whatever follows (or precedes) the token in the header value - a NUL byte and anything, a blank, another copy of the token - the
+   request is refused: the comparison is of the whole value, byte for byte (the code compared up to an embedded NUL until 08a6039) *)
+Theorem C17_token_with_suffix_refused : forall s hdrs suffix,
+  suffix <> nil -> hm_value (la_hname s) hdrs = (TOKEN ++ suffix)%list -> la_admits s hdrs = false.
+Proof. exact token_with_suffix_refused. Qed.
+Print Assumptions C17_token_with_suffix_refused.
+Theorem C17_token_with_prefix_refused : forall s hdrs prefix,
+  prefix <> nil -> hm_value (la_hname s) hdrs = (prefix ++ TOKEN)%list -> la_admits s hdrs = false.
+Proof. exact token_with_prefix_refused. Qed.
+Print Assumptions C17_token_with_prefix_refused.
